@@ -73,6 +73,10 @@ func NewTransport(name string) *Transport {
 // Feed queues bytes for the library to read (as one transport read unless larger than the caller's buffer).
 func (t *Transport) Feed(b []byte) {
 	t.mu.Lock()
+	if t.closed {
+		t.mu.Unlock()
+		return
+	}
 	t.in = append(t.in, inItem{data: append([]byte(nil), b...)})
 	t.bytesIn += len(b)
 	t.cond.Broadcast()
@@ -95,7 +99,8 @@ func (t *Transport) Read(p []byte) (int, error) {
 	for len(t.in) == 0 && !t.closed {
 		t.cond.Wait()
 	}
-	if len(t.in) == 0 {
+	if t.closed {
+		// like a real connection: nothing can be read after Close, whatever is still queued
 		return 0, io.EOF
 	}
 	it := &t.in[0]
